@@ -38,7 +38,10 @@ func NewLeafReduce(leafExecuteCtx *context.LeafExecuteContext, executeCtx *flow.
 
 // Execute executes aggregate down sampling result set after all down sampling operators completed.
 func (op *leafReduce) Execute() error {
-	if op.executeCtx.PendingDataLoadTasks.Load() == 0 {
+	// NOTE: data load stages of the time segments(families) run in parallel, each of them can find no pending
+	// task after its own loads, only one of them reduces(reduce resets the aggregators while it goes).
+	if op.executeCtx.PendingDataLoadTasks.Load() == 0 &&
+		(op.executeCtx.Reduced == nil || op.executeCtx.Reduced.CompareAndSwap(false, true)) {
 		// after load, need to reduce the aggregator's result to query flow.
 		op.executeCtx.Reduce(op.leafExecuteCtx.ReduceCtx.Reduce)
 	}
